@@ -432,7 +432,7 @@ func (in *Interp) modelValues() ([]interface{}, error) {
 				b[i] = byte(get(t.S).Uint64())
 			}
 			e["v"] = hex.EncodeToString(b)
-		case "choose":
+		case "choose", "until":
 			e["v"] = fmt.Sprint(inp.N)
 		case "lz":
 			n := 0
